@@ -29,11 +29,60 @@ def rstr(rng: random.Random, alphabet: str, lo: int = 0, hi: int = 8) -> str:
     return ''.join(rng.choice(alphabet) for _ in range(rng.randint(lo, hi)))
 
 
-def pick_str(rng: random.Random, alphabet: str, specials: list[str], lo: int = 1, hi: int = 8) -> str:
-    """Mostly short random strings over `alphabet`, sometimes one of the special (tricky but representable) strings."""
-    if specials and rng.random() < 0.25:
-        return rng.choice(specials)
-    return rstr(rng, alphabet, lo, hi)
+def collide(rng: random.Random, s: str, case_ok: bool = True) -> str:
+    """A string that differs from `s` but collides with it under a normalisation somebody might apply to a key: letter case
+    (swapcase / upper / lower / title), surrounding or inner whitespace (strip, split-join).  May return `s` itself when the
+    transformation is the identity on it (callers that need distinct names check that anyway)."""
+    ops = ['lead', 'trail', 'inner']
+    if case_ok:
+        ops += ['swap', 'upper', 'lower', 'title', 'swap', 'first']
+    op = rng.choice(ops)
+    if op == 'lead':
+        return ' ' + s
+    if op == 'trail':
+        return s + ' '
+    if op == 'inner':
+        i = s.find(' ')
+        return s[:i] + ' ' + s[i:] if i >= 0 else s + '  '
+    if op == 'swap':
+        return s.swapcase()
+    if op == 'upper':
+        return s.upper()
+    if op == 'lower':
+        return s.lower()
+    if op == 'first':
+        return s[:1].swapcase() + s[1:]
+    return s.title()
+
+
+def new_bag(rng: random.Random) -> None:
+    """Start a new *name bag* on the generator: the strings handed out by `pick_str` for one spec.  Later picks re-use them
+    (the identical string: equal values in several places of one file) or derive a colliding variant (`collide`), so that every
+    table a writer keys by a name, or by an object that compares by name, sees keys that are distinct but equal after
+    casefold / strip, and keys that are equal."""
+    rng._c20_bag = []          # type: ignore[attr-defined]
+
+
+def pick_str(rng: random.Random, alphabet: str, specials: list[str], lo: int = 1, hi: int = 8, case_ok: bool = True) -> str:
+    """Mostly short random strings over `alphabet`, sometimes one of the special (tricky but representable) strings, sometimes a
+    string already used in this spec or a variant of one that collides with it under casefold / strip (`case_ok=False`: only
+    whitespace variants, for names the format itself compares ignoring case)."""
+    bag = getattr(rng, '_c20_bag', None)
+    r = rng.random()
+    out = None
+    if bag and r < 0.22 and lo >= 1:
+        base = rng.choice(bag)
+        cand = base if r < 0.04 else collide(rng, base, case_ok)
+        if lo <= len(cand) <= hi + 4 and all(c in alphabet for c in cand):
+            out = cand
+    if out is None:
+        if specials and rng.random() < 0.25:
+            out = rng.choice(specials)
+        else:
+            out = rstr(rng, alphabet, lo, hi)
+    if bag is not None and out and len(bag) < 40:
+        bag.append(out)
+    return out
 
 
 def diff_path(a: Any, b: Any, path: str = '') -> str | None:
@@ -192,6 +241,9 @@ def cmdseq_gen(rng: random.Random) -> dict:
     names: set[str] = set()
     for _ in range(rng.choice([0, 1, 1, 2, 3])):
         name = s(128)
+        if names and rng.random() < 0.25:
+            # the file is a dict keyed by the exact name: names that differ only in case / surrounding blanks are different sequences
+            name = collide(rng, rng.choice(sorted(names)))[:128]
         if name in names:
             continue
         names.add(name)
@@ -267,6 +319,7 @@ def _q64(rng: random.Random, lim: int = 64 * 200) -> float:
 
 
 def smd_gen(rng: random.Random) -> dict:
+    new_bag(rng)
     nb = rng.choice([1, 1, 2, 3, 5, 9])
     bones = []
     names: set[str] = set()
@@ -301,7 +354,9 @@ def smd_gen(rng: random.Random) -> dict:
         if mat == 'end':
             mat = 'end_'
         tris.append({'mat': mat, 'verts': verts})
-    return {'bones': bones, 'order': order, 'anim': anim, 'tris': tris}
+    # 'copy': the mesh is deep-copied before it is written, so frames, links and parents refer to Bone objects that are equal to
+    # the ones in Mesh.bones but not identical (Bone.__deepcopy__ makes a new object per reference)
+    return {'bones': bones, 'order': order, 'anim': anim, 'tris': tris, 'copy': rng.random() < 0.25}
 
 
 def smd_build(spec: dict):
@@ -338,7 +393,11 @@ def smd_build(spec: dict):
             mat = mat.replace('//', '/')
         mat = mat.strip('/ ') or 'm'            # the reader strips the line and trailing slashes
         tris.append(Triangle('end_' if mat == 'end' else mat, *vs[:3]))
-    return Mesh(bones, anim, tris)
+    mesh = Mesh(bones, anim, tris)
+    if spec.get('copy'):
+        import copy
+        mesh = copy.deepcopy(mesh)
+    return mesh
 
 
 def smd_write(mesh) -> bytes:
@@ -410,8 +469,9 @@ def snd_gen(rng: random.Random) -> dict:
     chans = [c.name for c in S.Channel]
     sounds = []
     names: set[str] = set()
+    new_bag(rng)
     for _ in range(rng.choice([1, 1, 2, 3])):
-        nm = pick_str(rng, SND_ALPHA, ['Weapon_Pistol.Single', 'has space', 'a{b', '//x', 'x//y', '[flag]', '#inc', 'semi;colon'], 1, 10)
+        nm = pick_str(rng, SND_ALPHA, ['Weapon_Pistol.Single', 'has space', 'a{b', '//x', 'x//y', '[flag]', '#inc', 'semi;colon'], 1, 10, case_ok=False)
         if nm.casefold() in names:
             continue
         names.add(nm.casefold())
@@ -516,8 +576,9 @@ VMT_ALPHA = ''.join(c for c in PRINTABLE if c != '"')
 def vmt_gen(rng: random.Random) -> dict:
     params = []
     seen: set[str] = set()
+    new_bag(rng)
     for _ in range(rng.choice([0, 1, 2, 3, 5])):
-        nm = pick_str(rng, VMT_ALPHA, ['$basetexture', '$envmapmask', '%keywords', '$a b', '>=dx90?$x', '/slash', '#hash', '$x[0]'], 1, 8)
+        nm = pick_str(rng, VMT_ALPHA, ['$basetexture', '$envmapmask', '%keywords', '$a b', '>=dx90?$x', '/slash', '#hash', '$x[0]'], 1, 8, case_ok=False)
         if nm.casefold() in seen or not nm.strip():
             continue
         seen.add(nm.casefold())
@@ -578,7 +639,7 @@ def _pcf_opts(rng: random.Random) -> list:
     out = []
     seen: set[str] = set()
     for _ in range(rng.choice([0, 1, 2, 4])):
-        nm = pick_str(rng, PCF_ALPHA, ['max_particles', 'animation rate', 'Visibility Proxy Radius', 'color', 'radius'], 1, 10)
+        nm = pick_str(rng, PCF_ALPHA, ['max_particles', 'animation rate', 'Visibility Proxy Radius', 'color', 'radius'], 1, 10, case_ok=False)
         if nm.casefold() in seen or nm.casefold() in PCF_RESERVED:
             continue
         seen.add(nm.casefold())
@@ -602,8 +663,9 @@ def _pcf_opts(rng: random.Random) -> list:
 def pcf_gen(rng: random.Random) -> dict:
     systems = []
     seen: set[str] = set()
+    new_bag(rng)
     for _ in range(rng.choice([1, 1, 2, 3])):
-        nm = pick_str(rng, PCF_ALPHA, ['test_part', 'Explosion Core', 'UPPER'], 1, 10)
+        nm = pick_str(rng, PCF_ALPHA, ['test_part', 'Explosion Core', 'UPPER'], 1, 10, case_ok=False)
         if nm.casefold() in seen:
             continue
         seen.add(nm.casefold())
@@ -812,7 +874,10 @@ def _event(rng: random.Random, mode: str, flex_p: float) -> dict:
     return ev
 
 
-def scene_gen(rng: random.Random, mode: str, flex_p: float = 0.15) -> dict:
+def scene_gen(rng: random.Random, mode: str, flex_p: float = 0.15, bag: bool = True) -> dict:
+    if bag:
+        new_bag(rng)
+
     def evs(nmax):
         return [_event(rng, mode, flex_p) for _ in range(rng.choice([0, 1, 1, 2, nmax]))]
     actors = []
@@ -941,12 +1006,13 @@ def scene_canon(sc) -> Any:
 def image_gen(rng: random.Random) -> dict:
     entries = []
     names: set[str] = set()
+    new_bag(rng)        # one bag for the whole image: the scenes share one string pool
     for _ in range(rng.choice([0, 1, 2, 3, 5])):
         nm = rng.choice(['scenes/', 'SCENES\\', '', 'scenes/npc/']) + rstr(rng, SAFE_WORD, 1, 8) + '.vcd'
         if nm.lower() in names:
             continue
         names.add(nm.lower())
-        entries.append({'filename': nm, 'scene': scene_gen(rng, 'binary', flex_p=0.1)})
+        entries.append({'filename': nm, 'scene': scene_gen(rng, 'binary', flex_p=0.1, bag=False)})
     return {'version': rng.choice([2, 3]), 'entries': entries}
 
 
